@@ -13,7 +13,7 @@ import (
 
 func init() {
 	register(&Prop{ID: "C05", Run: runC05, MinNontrivial: 500,
-		Rule:        "cases = IdP-signed (or skip-config) responses with 1-3 assertions whose time bounds sit at chosen distances (-1s,-1ns,0,+1ns,+1s and far) from the SP's fake clock; a focus bound (subject-confirmation NotOnOrAfter of assertion i, Conditions NotBefore / NotOnOrAfter of assertion 0) is probed at all five positions while the other bounds are drawn around it incl. equalities; bounds rendered with Z / +00:00 / +05:30 / -08:00 offsets and 0/1/3/6/9 fractional digits; missing, empty and malformed bounds; oracle: Expired error iff some now >= sc[i], InvalidTime iff now < NotBefore or now >= NotOnOrAfter of assertion 0, typed rejection for missing/unparsable; non-trivial = signature processing passed and the time logic decided the outcome; distinct by (focus, delta, layout of bounds); bounds on the wrong side of the clock incl. the zero instant 0001-01-01T00:00:00Z and the Unix epoch; hour-24, second-60, month-13 and negative-year forms among the malformed ones; NotBefore on the bearer confirmation data; bounds with 10-33 fractional digits; first assertion without AttributeStatement",
+		Rule:        "cases = IdP-signed (or skip-config) responses with 1-3 assertions whose time bounds sit at chosen distances (-1s,-1ns,0,+1ns,+1s and far) from the SP's fake clock; a focus bound (subject-confirmation NotOnOrAfter of assertion i, Conditions NotBefore / NotOnOrAfter of assertion 0) is probed at all five positions while the other bounds are drawn around it incl. equalities; bounds rendered with Z / +00:00 / +05:30 / -08:00 offsets and 0/1/3/6/9 fractional digits; missing, empty and malformed bounds; oracle: Expired error iff some now >= sc[i], InvalidTime iff now < NotBefore or now >= NotOnOrAfter of assertion 0, typed rejection for missing/unparsable; non-trivial = signature processing passed and the time logic decided the outcome; distinct by (focus, delta, layout of bounds); bounds on the wrong side of the clock incl. the zero instant 0001-01-01T00:00:00Z and the Unix epoch; hour-24, second-60, month-13 and negative-year forms among the malformed ones; NotBefore on the bearer confirmation data; bounds with 10-33 fractional digits; first assertion without AttributeStatement; VerifyAssertionConditions on the returned assertion after the clock moved across each bound; SessionNotOnOrAfter before / after the clock",
 		Assumptions: []string{"instants are compared as time.Time built from the record, never from the string", "wall time is decades away from every window, so a consultation of wall time changes the outcome"}})
 }
 
